@@ -12,6 +12,8 @@ import (
 // verification). Obligations are cut points into this script: an obligation sees every
 // declaration, definition and assumption emitted before it.
 type Script struct {
+	boundVars    [][2]string
+	unregistered int // binders whose variables are not registered (no definitions under them)
 	lines   []string
 	nsym    int
 	strLits map[string]string // Go string literal -> SMT constant
@@ -72,10 +74,28 @@ func (s *Script) declare(hint string, sort string) string {
 	return n
 }
 
-// define names a term so that later uses share it. Short terms are returned as is.
+// define names a term so that later uses share it. Short terms are returned as is. Under a binder
+// the definition takes the bound variables that occur in the term as parameters.
 func (s *Script) define(hint string, sort string, term string) string {
-	if len(term) < 40 || !strings.HasPrefix(term, "(") || s.binder > 0 {
+	if len(term) < 40 || !strings.HasPrefix(term, "(") {
 		return term
+	}
+	if s.binder > 0 {
+		var params, names []string
+		for _, b := range s.boundVars {
+			if strings.Contains(term, b[0]) {
+				params = append(params, "("+b[0]+" "+b[1]+")")
+				names = append(names, b[0])
+			}
+		}
+		if s.unregistered > 0 {
+			return term
+		}
+		if len(params) > 0 {
+			n := s.fresh(hint)
+			s.emit("(define-fun %s (%s) %s %s)", n, strings.Join(params, " "), sort, term)
+			return "(" + n + " " + strings.Join(names, " ") + ")"
+		}
 	}
 	n := s.fresh(hint)
 	s.emit("(define-fun %s () %s %s)", n, sort, term)
@@ -86,6 +106,17 @@ func (s *Script) define(hint string, sort string, term string) string {
 		s.boolDefs[n] = term
 	}
 	return n
+}
+
+// bind / unbind register bound variables (name, sort) of an enclosing quantifier.
+func (s *Script) bind(vars [][2]string) {
+	s.binder++
+	s.boundVars = append(s.boundVars, vars...)
+}
+
+func (s *Script) unbind(n int) {
+	s.binder--
+	s.boundVars = s.boundVars[:len(s.boundVars)-n]
 }
 
 func (s *Script) assume(term string) {
